@@ -373,6 +373,22 @@ def run_case(proc_name, fault=None, at=0, hold=None):
         injected = [False]
         late = {}
         reconn = {}
+        watched = {}  # id(channel) -> [device index, channel, was open when seen or since, 'close' events]
+
+        def watch_channels():
+            # every L2CAP channel object of the connection under test that is open now: once its connection is gone it
+            # has to have told its user so ('close' is what RFCOMM, SDP, AVDTP and applications release their waiters on)
+            for i in pair:
+                lm = w.devices[i].l2cap_channel_manager
+                for table in (lm.channels, lm.le_coc_channels):
+                    for ch in list(table.get(handle_of[i], {}).values()):
+                        if id(ch) in watched or not hasattr(ch, 'on'):
+                            continue
+                        rec = watched[id(ch)] = [i, ch, getattr(getattr(ch, 'state', None), 'name', '') in ('OPEN', 'CONNECTED'), 0]
+                        ch.on('open', lambda *a, rec=rec: rec.__setitem__(2, True))
+                        ch.on('close', lambda *a, rec=rec: rec.__setitem__(3, rec[3] + 1))
+
+        watch_channels()
 
         def check_queued(when):
             for i in pair:
@@ -404,6 +420,7 @@ def run_case(proc_name, fault=None, at=0, hold=None):
         def inject(handle):
             injected[0] = True
             tr.phase = 'cut'
+            watch_channels()
             if hold is not None:
                 w.loop.held.add(tuple(hold))
             if fault == 'local_disconnect':
@@ -540,6 +557,12 @@ def run_case(proc_name, fault=None, at=0, hold=None):
                             f'residue: host.{qn}.pending ({side})',
                             f'{side}: host.{qn}.pending={q.pending} although every live connection has been served and all credits are back',
                         )
+        for i, ch, was_open, closes in watched.values():
+            if was_open and closes == 0 and i not in w.lost and handle_of[i] not in w.devices[i].connections:
+                bad(
+                    f'channel_never_closed: {type(ch).__name__} ({side_of[i]})',
+                    f'{side_of[i]}: an open {type(ch).__name__} of the connection never emitted \'close\' although the connection is gone (left in state {getattr(getattr(ch, "state", None), "name", "?")}): whoever waits for its end waits for ever',
+                )
         for i in pair:
             if i in w.lost and any(v[0].startswith('awaitable_pending') for v in viol):
                 continue
